@@ -316,6 +316,116 @@ pub fn gen_chain(rng: &mut StdRng) -> Prog {
     Prog { ops }
 }
 
+/// One very wide stage (more groups than any inline buffer or narrow index type holds: 6, 16, 255/256), then
+/// systems that conflict with / depend on members of far-away groups.
+pub fn gen_wide_stage(rng: &mut StdRng) -> Prog {
+    let n = *[7usize, 17, 40, 130, 257, 262, 300].choose(rng).unwrap();
+    let mut ops = Vec::new();
+    // every member writes its own resource (301 + i) or nothing: no conflicts, one group each
+    for i in 0..n {
+        let own = rng.gen_bool(0.6);
+        let t = *[1u8, 3, 3, 3, 5].choose(rng).unwrap();
+        ops.push(Op::Add { r: vec![], w: if own { vec![301 + i as Res] } else { vec![] }, deps: vec![], t, name: format!("w{}", i) });
+    }
+    // late-comers: conflict with exactly one member (mostly one of the last groups), some with a dependency
+    for k in 0..rng.gen_range(2..=8) {
+        let i = if rng.gen_bool(0.7) { n - 1 - rng.gen_range(0..n.min(5)) } else { rng.gen_range(0..n) };
+        let t = *[1u8, 1, 3, 5].choose(rng).unwrap();
+        let (r, w) = if rng.gen_bool(0.5) { (vec![], vec![301 + i as Res]) } else { (vec![301 + i as Res], vec![]) };
+        let deps = if rng.gen_bool(0.3) { vec![format!("w{}", rng.gen_range(0..n))] } else { vec![] };
+        ops.push(Op::Add { r, w, deps, t, name: format!("late{}", k) });
+    }
+    Prog { ops }
+}
+
+fn wide_stage_of(rng: &mut StdRng, n: usize) -> Prog {
+    let mut ops = Vec::new();
+    for i in 0..n {
+        let own = rng.gen_bool(0.6);
+        let t = *[1u8, 3, 3, 3, 5].choose(rng).unwrap();
+        ops.push(Op::Add { r: vec![], w: if own { vec![301 + i as Res] } else { vec![] }, deps: vec![], t, name: format!("w{}", i) });
+    }
+    for k in 0..rng.gen_range(2..=6) {
+        let i = if rng.gen_bool(0.7) { n - 1 - rng.gen_range(0..n.min(3)) } else { rng.gen_range(0..n) };
+        let t = *[1u8, 1, 3, 5].choose(rng).unwrap();
+        let (r, w) = if rng.gen_bool(0.5) { (vec![], vec![301 + i as Res]) } else { (vec![301 + i as Res], vec![]) };
+        ops.push(Op::Add { r, w, deps: vec![], t, name: format!("late{}", k) });
+    }
+    Prog { ops }
+}
+
+/// Programs at the boundaries of machine-word and narrow-integer sizes (64/65 and 255/256/257 groups,
+/// thread-local systems, dependencies, resources).  `None` when `i` is past the last one.
+pub fn gen_boundary(i: usize, rng: &mut StdRng) -> Option<Prog> {
+    let plain = |name: String, deps: Vec<String>| Op::Add { r: vec![], w: vec![], deps, t: 3, name };
+    Some(match i {
+        0 => wide_stage_of(rng, 64),
+        1 => wide_stage_of(rng, 65),
+        2 => wide_stage_of(rng, 256),
+        3 => wide_stage_of(rng, 257),
+        4 => {
+            // 65 .. 66 distinct resources, conflicts on the last ones
+            let mut ops = vec![Op::Add { r: (401..=464).collect(), w: vec![], deps: vec![], t: 3, name: "all".into() }];
+            for (k, x) in [465u32, 465, 466, 466, 464, 464].iter().enumerate() {
+                ops.push(Op::Add { r: vec![], w: vec![*x], deps: vec![], t: *[1u8, 3, 5].choose(rng).unwrap(), name: format!("p{}", k) });
+            }
+            Prog { ops }
+        }
+        5 | 6 => {
+            // exactly 256 / 257 thread-local systems next to a few ordinary ones
+            let n = if i == 5 { 256 } else { 257 };
+            let mut ops = vec![Op::Add { r: vec![], w: vec![1], deps: vec![], t: 3, name: "o1".into() }, Op::Add { r: vec![1], w: vec![2], deps: vec![], t: 3, name: "o2".into() }];
+            for k in 0..n {
+                ops.push(Op::Tl { r: if k % 50 == 0 { vec![2] } else { vec![] }, w: vec![] });
+            }
+            Prog { ops }
+        }
+        7 => {
+            // more than 64 distinct dependencies (and the same again, repeated and shuffled)
+            let mut ops: Vec<Op> = (0..66).map(|k| plain(format!("d{}", k), vec![])).collect();
+            ops.push(plain("a".into(), vec!["d0".into(), "d1".into()]));
+            let mut all: Vec<String> = (0..66).map(|k| format!("d{}", k)).collect();
+            all.push("a".into());
+            ops.push(plain("b".into(), all.clone()));
+            all.shuffle(rng);
+            all.push("d65".into());
+            ops.push(plain("c".into(), all));
+            Prog { ops }
+        }
+        _ => return None,
+    })
+}
+
+/// More distinct resources in one builder than a machine word has bits (65..140), each system touching few of
+/// them: conflicts on the late resources only.
+pub fn gen_many_res(rng: &mut StdRng) -> Prog {
+    let nres = *[63u32, 64, 65, 66, 100, 129, 140].choose(rng).unwrap();
+    let mut ops = Vec::new();
+    let mut k = 0;
+    // first touch every resource once, in order (a reader of many, or one system each)
+    if rng.gen_bool(0.5) {
+        ops.push(Op::Add { r: (401..=400 + nres).collect(), w: vec![], deps: vec![], t: 3, name: "all".into() });
+    } else {
+        for i in 1..=nres {
+            ops.push(Op::Add { r: vec![400 + i], w: vec![], deps: vec![], t: 3, name: format!("r{}", i) });
+            if i % 7 == 0 && rng.gen_bool(0.3) {
+                ops.push(Op::Barrier);
+            }
+        }
+    }
+    // then pairs that conflict only on one (mostly late) resource
+    for _ in 0..rng.gen_range(3..=10) {
+        let x = if rng.gen_bool(0.7) { 400 + nres - rng.gen_range(0..nres.min(4)) } else { 400 + rng.gen_range(1..=nres) };
+        for _ in 0..2 {
+            let t = *[1u8, 3, 5].choose(rng).unwrap();
+            let (r, w) = if rng.gen_bool(0.7) { (vec![], vec![x]) } else { (vec![x], vec![]) };
+            ops.push(Op::Add { r, w, deps: vec![], t, name: format!("p{}", k) });
+            k += 1;
+        }
+    }
+    Prog { ops }
+}
+
 pub fn gen_prog(rng: &mut StdRng, cfg: &GenCfg, depth: usize, prefix: &str) -> Prog {
     let n = rng.gen_range(cfg.n_min..=cfg.n_max);
     let mut ops = Vec::new();
